@@ -4,9 +4,9 @@ import (
 	"fmt"
 	"go/constant"
 	"go/token"
-	"strconv"
 	"go/types"
 	"sort"
+	"strconv"
 	"strings"
 
 	"golang.org/x/tools/go/ssa"
@@ -588,11 +588,11 @@ func AddrPath(v ssa.Value) (root ssa.Value, path []PathStep) {
 
 // FieldWrite describes a store through a field of a struct type.
 type FieldWrite struct {
-	Fn    *ssa.Function
-	Instr ssa.Instruction
-	Path  []PathStep
-	Val   ssa.Value // nil for delegated writes (address passed to a call)
-	Kind  string    // "store", "addr-arg" (address handed to a callee), "mapupdate"
+	Fn     *ssa.Function
+	Instr  ssa.Instruction
+	Path   []PathStep
+	Val    ssa.Value // nil for delegated writes (address passed to a call)
+	Kind   string    // "store", "addr-arg" (address handed to a callee), "mapupdate"
 	Callee string
 }
 
